@@ -227,7 +227,7 @@ pub fn run_c06(args: &Args) -> i32 {
     report.set("base_states", json!(w.bases.len()));
     report.set("variants", json!(ALL_VARIANTS.iter().map(|v| v.name()).collect::<Vec<_>>()));
     report.set("exhaustive", json!(true));
-    report.set("rule", json!("every history of <= `depth` steps over the 38-step alphabet H from 6 base states, executed in lock-step on the six variants; every step result and, at the end of every history, the full observable dump (all elements, values, keys, counts, aliases, indexes, index searches, four traversals per node) must be identical. states = distinct dumps."));
+    report.set("rule", json!("every history of <= `depth` steps over the 39-step alphabet H from 6 base states, executed in lock-step on the six variants; every step result and, at the end of every history, the full observable dump (all elements, values, keys, counts, aliases, indexes, index searches, four traversals per node) must be identical. states = distinct dumps."));
     report.assume("values, keys, aliases and ids outside the alphabet are not covered; histories longer than the depth are not covered");
     report.finish()
 }
@@ -390,9 +390,24 @@ pub fn run_c05(args: &Args) -> i32 {
                                 let d1 = dump(db.as_ref(), true)?.ordered();
                                 Ok(Some((String::new(), d1)))
                             }
-                            Some((_, fi)) => {
+                            Some((k, fi)) => {
                                 let r = res_string(&w.alpha[*fi].1.run(db.as_mut()));
-                                Ok(Some((r, dump(db.as_ref(), true)?.ordered())))
+                                let d = dump(db.as_ref(), true)?.ordered();
+                                // and the other way round (single maintenance operations only): step first, then maintenance
+                                if ms.len() == 1 && r == ref_follow[k].0 && d == ref_follow[k].1 {
+                                    n += 1;
+                                    let path2 = scratch.path(&format!("w{n}.agdb"));
+                                    let (mut db2, _) = build(&w, v, &path2, base, hist)?;
+                                    let _ = w.alpha[*fi].1.run(db2.as_mut());
+                                    let (db3, _, _) = maintain(ms[0], v, db2, &path2, scratch, &mut n)?;
+                                    maint_applied.fetch_add(1, Ordering::Relaxed);
+                                    transitions.fetch_add(1, Ordering::Relaxed);
+                                    let d3 = dump(db3.as_ref(), true)?.ordered();
+                                    if d3 != ref_follow[k].1 {
+                                        return Ok(Some((r, format!("AFTER-STEP;{d3}"))));
+                                    }
+                                }
+                                Ok(Some((r, d)))
                             }
                         }
                     });
@@ -404,7 +419,9 @@ pub fn run_c05(args: &Args) -> i32 {
                                 }
                             }
                             Some((k, _)) => {
-                                if rs != ref_follow[k].0 {
+                                if ds.starts_with("AFTER-STEP;") {
+                                    report.violation(&format!("maint={ms_name}|variant={}|step-then-maintenance-differs", v.name()), "a step followed by the maintenance operation leaves a different state than the step alone", w.replay_json(base, hist, detail));
+                                } else if rs != ref_follow[k].0 {
                                     report.violation(&format!("maint={ms_name}|variant={}|follow-up-result-differs", v.name()), &format!("follow-up returned {rs} instead of {}", ref_follow[k].0), w.replay_json(base, hist, detail));
                                 } else if ds != ref_follow[k].1 {
                                     report.violation(&format!("maint={ms_name}|variant={}|follow-up-state-differs", v.name()), "observable state after one further step differs from the never-maintained database", w.replay_json(base, hist, detail));
@@ -451,6 +468,6 @@ pub fn run_c05(args: &Args) -> i32 {
     report.set("variants", json!(variants.iter().map(|v| v.name()).collect::<Vec<_>>()));
     report.set("maintenance_ops", json!(MAINTS.iter().map(|m| format!("{m:?}")).collect::<Vec<_>>()));
     report.set("exhaustive", json!(true));
-    report.set("rule", json!("at every node of the history tree (all histories of <= depth steps over H from 6 base states) each maintenance operation (and every ordered pair, for histories up to the stated length) is applied to a freshly replayed database; the full ordered dump must equal that of the never-maintained database, and must still be equal after each of 3 (quick) / 7 (thorough) further mutating steps"));
+    report.set("rule", json!("at every node of the history tree (all histories of <= depth steps over H from 6 base states) each maintenance operation (and every ordered pair, for histories up to the stated length) is applied to a freshly replayed database; the full ordered dump must equal that of the never-maintained database, and must still be equal after each of 3 (quick) / 7 (thorough) further mutating steps; each such step is also run BEFORE the maintenance operation (state after step+maintenance = state after the step alone)"));
     report.finish()
 }
